@@ -133,6 +133,29 @@ func caseBattle(t *testing.T, tp *simrt.Tape, c *Ctx) (res Result) {
 			}
 			res.stat("probe.twin-driving-schedules", 1)
 		}
+		// rematch: Reset, spawn the same warriors at the same places, drive
+		// again on the SAME instance: the second battle must end exactly as
+		// the first (every call still compared with the reference)
+		if tp.Draw("bat.rematch", 3) == 0 {
+			s1, _ := takeSnap(h1.box)
+			h1.opReset()
+			for i := range ws {
+				if h1.dead {
+					break
+				}
+				h1.opSpawn(i, offs[i])
+			}
+			if !h1.dead {
+				h1.opRun()
+			}
+			if !h1.dead {
+				s3, _ := takeSnap(h1.box)
+				if fmt.Sprint(s1.alive, s1.cycle, s1.queues) != fmt.Sprint(s3.alive, s3.cycle, s3.queues) || fmt.Sprint(s1.core) != fmt.Sprint(s3.core) {
+					res.add("C02", "C02 rematch after Reset ends differently from the first battle", map[string]any{"first": fmt.Sprint(s1.alive, s1.cycle, s1.queues), "second": fmt.Sprint(s3.alive, s3.cycle, s3.queues)})
+				}
+				res.stat("probe.rematch-after-reset", 1)
+			}
+		}
 		// reach probes
 		died := 0
 		for _, a := range f1 {
